@@ -1,8 +1,129 @@
 import NauyacaVerif.Drv.Common
+import NauyacaVerif.Misc.TofuTxn
 namespace NauyacaVerif.Drv.TofuD
-open NauyacaVerif.Drv
+open NauyacaVerif.Drv TofuTxn
 
-/-- line-protocol handler of this area; `none` = not one of ours -/
+/-! Line protocol of M-Tofu transactions (TAB or space separated):
+
+    txn <store> <op> <k|all>         → ok <store'> <script> <outcome>
+    roundtrip <store> <now>          → ok <store'> <keys>
+
+  store   ::= - | row;row;…          row   ::= <host-cps>:<port>:<fp>:<first>:<last>
+  op      ::= init | trust:<host>:<port>:<fp>:<now> | verify:<host>:<port>:<fp>:<now>
+            | revoke:<host>:<port> | revokehost:<host> | clear
+            | import:<merge 0|1>:<now>:<cb>:<file>
+  cb      ::= n | [usr]*             (n = no callback; letter i = what the callback does at entry i)
+  file    ::= X | - | entry;entry;…  entry ::= <host>/<port int>/<portIsInt>/<fp>/<fpOk>/<first>/<missing>
+  script  ::= - | txn|txn…           txn   ::= stmt;stmt;…   (empty txn = `_`)
+  outcome ::= ok | ok:<added>,<updated>,<skipped> | fail:<kind>      (of the complete operation) -/
+
+def natOf? (s : String) : Option Nat := if s.isEmpty || !s.all Char.isDigit then none else some s.toNat!
+
+def intOf? (s : String) : Option Int :=
+  match s.toList with
+  | '-' :: r => (natOf? (String.ofList r)).map (fun n => - (n : Int))
+  | _ => (natOf? s).map (fun n => (n : Int))
+
+def parseRow (s : String) : Option Row :=
+  match s.splitOn ":" with
+  | [h, p, fp, f, l] =>
+    match natOf? p, natOf? fp, natOf? f, natOf? l with
+    | some p, some fp, some f, some l => some ⟨cpsNat h, p, fp, f, l⟩
+    | _, _, _, _ => none
+  | _ => none
+
+def parseStore (s : String) : Option Store :=
+  if s == "-" then some [] else (s.splitOn ";").mapM parseRow
+
+def parseEntry (s : String) : Option Entry :=
+  match s.splitOn "/" with
+  | [h, p, pi, fp, fo, f, m] =>
+    match intOf? p, natOf? fp, natOf? f with
+    | some p, some fp, some f => some ⟨cpsNat h, p, pi == "1", fp, fo == "1", f, m == "1"⟩
+    | _, _, _ => none
+  | _ => none
+
+def parseFile (s : String) : Option ImportFile :=
+  if s == "X" then some .unreadable
+  else if s == "-" then some (.entries [])
+  else ((s.splitOn ";").mapM parseEntry).map .entries
+
+def cbOf (s : String) : Option (Nat → Cb) :=
+  if s == "n" then none
+  else some (fun i => match s.toList[i]? with
+    | some 'u' => .update
+    | some 'r' => .raise
+    | _ => .skip)
+
+def parseOp (s : String) : Option Op :=
+  match s.splitOn ":" with
+  | ["init"] => some .init
+  | ["clear"] => some .clear
+  | ["trust", h, p, fp, now] =>
+    match natOf? p, natOf? fp, natOf? now with
+    | some p, some fp, some now => some (.trust (cpsNat h) p fp now)
+    | _, _, _ => none
+  | ["verify", h, p, fp, now] =>
+    match natOf? p, natOf? fp, natOf? now with
+    | some p, some fp, some now => some (.verify (cpsNat h) p fp now)
+    | _, _, _ => none
+  | ["revoke", h, p] => (natOf? p).map (fun p => .revoke (cpsNat h) p)
+  | ["revokehost", h] => some (.revokeHost (cpsNat h))
+  | ["import", m, now, cb, file] =>
+    match natOf? now, parseFile file with
+    | some now, some f => some (.importToml (m == "1") f (cbOf cb) now)
+    | _, _ => none
+  | _ => none
+
+def showRow (r : Row) : String := s!"{showCpsNat r.host}:{r.port}:{r.fp}:{r.first}:{r.last}"
+def showStore (s : Store) : String := if s.isEmpty then "-" else ";".intercalate (s.map showRow)
+
+def showStmt : Stmt → String
+  | .create => "C"
+  | .select h p => s!"S:{showCpsNat h}:{p}"
+  | .insert r => s!"I:{showRow r}"
+  | .updateFp h p fp now => s!"U:{showCpsNat h}:{p}:{fp}:{now}"
+  | .touch h p now => s!"T:{showCpsNat h}:{p}:{now}"
+  | .delete h p => s!"D:{showCpsNat h}:{p}"
+  | .deleteHost h => s!"DH:{showCpsNat h}"
+  | .deleteAll => "DA"
+  | .commit => "K"
+
+def showScript (sc : Script) : String :=
+  if sc.isEmpty then "-"
+  else "|".intercalate (sc.map (fun t => if t.isEmpty then "_" else ";".intercalate (t.map showStmt)))
+
+def showErr : Err → String
+  | .missing => "missing" | .badPort => "badport" | .badFp => "badfp" | .callback => "callback" | .unreadable => "unreadable"
+
+def count (t : Tally) (l : List Tally) : Nat := (l.filter (· == t)).length
+
+def outcome (op : Op) (s : Store) : String :=
+  match op with
+  | .importToml _ .unreadable _ _ => "fail:unreadable"
+  | .importToml merge (.entries es) cb now =>
+    let r := importLoop cb now 0 es (effects s (importPre merge))
+    match r.err with
+    | some e => "fail:" ++ showErr e
+    | none => s!"ok:{count .added r.tally},{count .updated r.tally},{count .skipped r.tally}"
+  | _ => "ok"
+
 def handle : List String → Option String
+  | ["txn", st, op, k] =>
+    match parseStore st, parseOp op with
+    | some s, some o =>
+      let sc := script o s
+      let res := if k == "all" then some (run s sc) else (natOf? k).map (fun k => crashAt k sc s)
+      match res with
+      | some s' => some s!"ok {showStore s'} {showScript sc} {outcome o s}"
+      | none => some "bad-op"
+    | _, _ => some "bad-op"
+  | ["roundtrip", st, now] =>
+    match parseStore st, natOf? now with
+    | some s, some now =>
+      let t := exportToml s
+      let keys := if t.isEmpty then "-" else ";".intercalate (t.map (fun kv => showCpsNat kv.1))
+      some s!"ok {showStore (importInto [] t now)} {keys}"
+    | _, _ => some "bad-op"
   | _ => none
 end NauyacaVerif.Drv.TofuD
